@@ -145,6 +145,21 @@ impl Aligned {
         fill_data(seed, &mut buf[start..start + len]);
         Aligned { buf, off: start, len }
     }
+    /// a destination buffer pre-filled with garbage ("dirty disk") whose start address is misaligned by 0..31 bytes
+    /// relative to a 32-byte boundary; contents and misalignment both follow from `seed` (and `len`)
+    pub fn dirty(seed: u64, len: usize) -> Self {
+        let off = (splitmix64(seed ^ (len as u64).wrapping_mul(0x9E3779B97F4A7C15)) >> 5) as usize % 32;
+        Aligned::new(seed, len, off)
+    }
+    /// the same misaligned placement for given contents (in-place operations)
+    pub fn holding(bytes: &[u8], seed: u64) -> Self {
+        let mut a = Aligned::dirty(seed, bytes.len());
+        a.get_mut().copy_from_slice(bytes);
+        a
+    }
+    pub fn to_vec(&self) -> Vec<u8> {
+        self.get().to_vec()
+    }
     #[inline]
     pub fn get(&self) -> &[u8] {
         &self.buf[self.off..self.off + self.len]
